@@ -148,11 +148,16 @@ func c09ParseInitial(d []byte) (payload []byte, total int, errs string) {
 type c09FlightResult struct {
 	Payloads [][]byte
 	Sizes    []int
-	Err      error
-	ParseErr string
-	Panic    string
-	Stack    string
-	Calls    int
+	// retransmission phase (only after a complete, error-free flight): the frames of a seeded subset of
+	// the flight's datagrams are declared lost, then the packer is asked for packets again
+	LostDgrams   []int
+	RetxPayloads [][]byte
+	RetxErr      error
+	Err          error
+	ParseErr     string
+	Panic        string
+	Stack        string
+	Calls        int
 }
 
 // c09Pack writes ch to a fresh Initial stream and packs Initial packets until the packer
@@ -186,6 +191,7 @@ func c09Pack(spec *QUICSpec, ch []byte, env c09Env, rng *rand.Rand) (res c09Flig
 	}
 	var pk interface {
 		PackCoalescedPacket(bool, protocol.ByteCount, monotime.Time, protocol.Version) (*coalescedPacket, error)
+		PackPTOProbePacket(protocol.EncryptionLevel, protocol.ByteCount, bool, monotime.Time, protocol.Version) (*coalescedPacket, error)
 	} = pp
 	if spec != nil {
 		pk = newUPacketPacker(pp, spec)
@@ -206,6 +212,7 @@ func c09Pack(spec *QUICSpec, ch []byte, env c09Env, rng *rand.Rand) (res c09Flig
 			at = to
 		}
 		now := monotime.Now()
+		var sentFrames [][]ackhandler.Frame
 		maxCalls := len(ch) + 64
 		for res.Calls = 0; res.Calls < maxCalls; res.Calls++ {
 			p, err := pk.PackCoalescedPacket(false, protocol.ByteCount(env.MaxSize), now, protocol.Version1)
@@ -214,7 +221,56 @@ func c09Pack(spec *QUICSpec, ch []byte, env c09Env, rng *rand.Rand) (res c09Flig
 				return
 			}
 			if p == nil {
+				// ---- the flight is complete: lose some of its datagrams and let the packer retransmit
+				if len(sentFrames) == 0 {
+					return
+				}
+				for i := range sentFrames {
+					if rng.IntN(2) == 0 {
+						res.LostDgrams = append(res.LostDgrams, i)
+					}
+				}
+				if len(res.LostDgrams) == 0 {
+					res.LostDgrams = []int{rng.IntN(len(sentFrames))}
+				}
+				for _, i := range res.LostDgrams {
+					for _, f := range sentFrames[i] {
+						if f.Handler != nil {
+							f.Handler.OnLost(f.Frame)
+						}
+					}
+				}
+				for k := 0; k < 4*len(sentFrames)+8; k++ {
+					var rp *coalescedPacket
+					var err error
+					if k%2 == 0 {
+						rp, err = pk.PackPTOProbePacket(protocol.EncryptionInitial, protocol.ByteCount(env.MaxSize), false, now, protocol.Version1)
+					} else {
+						rp, err = pk.PackCoalescedPacket(false, protocol.ByteCount(env.MaxSize), now, protocol.Version1)
+					}
+					if err != nil {
+						res.RetxErr = err
+						return
+					}
+					if rp == nil {
+						if k%2 == 1 {
+							return
+						}
+						continue
+					}
+					pl, _, perr := c09ParseInitial(rp.buffer.Data)
+					if perr != "" {
+						res.RetxErr = fmt.Errorf("retransmission packet unreadable: %s", perr)
+						rp.buffer.Release()
+						return
+					}
+					res.RetxPayloads = append(res.RetxPayloads, append([]byte(nil), pl...))
+					rp.buffer.Release()
+				}
 				return
+			}
+			if len(p.longHdrPackets) > 0 {
+				sentFrames = append(sentFrames, append([]ackhandler.Frame(nil), p.longHdrPackets[0].frames...))
 			}
 			pl, total, perr := c09ParseInitial(p.buffer.Data)
 			if perr != "" {
@@ -283,6 +339,55 @@ func c09JudgeFlight(c *evlog.Case, rp *c09Rep, comp, inClass string, env c09Env,
 	if cls != "" {
 		rp.viol("C09|"+comp+"|"+cls+inClass, detail, full())
 		return "viol", st
+	}
+	// ---- retransmissions: CRYPTO frames still carry the ClientHello's bytes at their true offsets, and
+	// every lost byte is sent again
+	if len(res.LostDgrams) > 0 {
+		tr := func() map[string]any {
+			t := full()
+			t["lost_datagrams"] = res.LostDgrams
+			t["retransmission_payloads"] = c09HexAll(res.RetxPayloads)
+			return t
+		}
+		if res.RetxErr != nil {
+			kind := "|other-error"
+			if strings.Contains(res.RetxErr.Error(), "does not fit the packet buffer") {
+				kind = "|packet-buffer-overflow"
+			}
+			rp.viol("C09|"+comp+"|retransmission-error"+kind+inClass, fmt.Sprintf("after losing datagram(s) %v of a %d-datagram flight the packer failed with: %v", res.LostDgrams, len(res.Payloads), res.RetxErr), tr())
+			return "viol", st
+		}
+		if cls, detail, _ := c09Check(ch, 0, res.RetxPayloads, false); cls != "" {
+			rp.viol("C09|"+comp+"|retransmission|"+cls+inClass, fmt.Sprintf("retransmission after losing datagram(s) %v: %s", res.LostDgrams, detail), tr())
+			return "viol", st
+		}
+		again := make([]bool, len(ch))
+		for _, p := range res.RetxPayloads {
+			fr, _, _ := c09Decode(p)
+			for _, f := range fr {
+				if f.Typ == 0x06 {
+					for i := f.Off; i < f.Off+f.Len && i < uint64(len(ch)); i++ {
+						again[i] = true
+					}
+				}
+			}
+		}
+		for _, di := range res.LostDgrams {
+			fr, _, _ := c09Decode(res.Payloads[di])
+			for _, f := range fr {
+				if f.Typ != 0x06 {
+					continue
+				}
+				for i := f.Off; i < f.Off+f.Len && i < uint64(len(ch)); i++ {
+					if !again[i] {
+						rp.viol("C09|"+comp+"|retransmission|lost-bytes-not-resent"+inClass, fmt.Sprintf("datagram %d was lost, ClientHello byte %d (of its CRYPTO range [%d,%d)) was never sent again", di, i, f.Off, f.Off+f.Len), tr())
+						return "viol", st
+					}
+				}
+			}
+		}
+		c.Count("retransmission_phases", 1)
+		c.Count("retransmission_packets", int64(len(res.RetxPayloads)))
 	}
 	c09CountStats(c, st)
 	c.Count("datagrams_packed", int64(len(res.Payloads)))
